@@ -49,6 +49,11 @@ def main():
             ok_scope = all(f.startswith('src/') or f.startswith('include/') for f in files)
             b = sh('cmake -G Ninja -B _b -DCMAKE_BUILD_TYPE=Release >/dev/null && cmake --build _b -j8 2>&1 | tail -3 && ctest --test-dir _b -j8 --timeout 900 2>&1 | tail -4', cwd=wt)
             tests_ok = '100% tests passed' in b.stdout
+            for _ in range(2):      # the suite writes fixed /tmp names: a concurrent run elsewhere makes test_maturity fail spuriously
+                if tests_ok:
+                    break
+                b2 = sh('ctest --test-dir _b -j2 --timeout 900 2>&1 | tail -4', cwd=wt)
+                tests_ok = '100% tests passed' in b2.stdout
             demo = sh('bash %s 2>&1 | tail -60' % os.path.join(md, 'demo%d.sh' % k), cwd=md, timeout=900) if os.path.exists(os.path.join(md, 'demo%d.sh' % k)) else None
             sh('git checkout -- . && rm -rf _b', cwd=wt)
             status = 'confirmed' if (tests_ok and ok_scope) else 'rejected'
